@@ -13,6 +13,8 @@ import RsomeV.Drv.Dro
 import RsomeV.Drv.Solvers
 import RsomeV.Drv.DualCert
 import RsomeV.Drv.SocApprox
+import RsomeV.Drv.DroRows
+import RsomeV.Drv.RoModel
 open Lean
 namespace RsomeV.Drv
 /-- every operation of the line protocol -/
@@ -55,5 +57,7 @@ def dispatch (op : String) (j : Json) : Except String Json :=
   | "rsocone_encode" => opRsoconeEncode j
   | "fold_bounds" => opFoldBounds j
   | "vtype_vector" => opVtypeVector j
+  | "dro_to_roc" => opDroToRoc j
+  | "ro_model" => opRoModel j
   | _ => throw s!"unknown op {op}"
 end RsomeV.Drv
